@@ -49,6 +49,7 @@ type vrtConn struct {
 	wblocked   []int // tickets of the goroutines blocked in Write
 	eofWithLast bool // the last bytes and the end of the stream are delivered by one Read (n > 0, io.EOF), as crypto/tls does
 	failWrites  bool // the write side of the connection is broken, the read side still delivers
+	halfClosed  bool // the peer has shut down its SENDING side only (end of stream after the pending bytes); what the library writes is still taken - or not, if the peer has also stopped reading: then writes block, they do not fail
 }
 
 func vrtNewConn() *vrtConn {
@@ -62,7 +63,7 @@ func (c *vrtConn) Read(b []byte) (int, error) {
 	c.mu.Lock()
 	defer c.mu.Unlock()
 	c.readsSinceArm++
-	for len(c.in) == 0 && !c.closed && !c.peerClosed && !c.timedOut {
+	for len(c.in) == 0 && !c.closed && !c.peerClosed && !c.halfClosed && !c.timedOut {
 		c.cond.Wait()
 	}
 	vrtTouch()
@@ -161,6 +162,15 @@ func (c *vrtConn) peerClose() {
 	vrtTouch()
 	c.mu.Lock()
 	c.peerClosed = true
+	c.cond.Broadcast()
+	c.mu.Unlock()
+}
+
+// peerHalfClose: the peer shuts down its sending side (TCP FIN) and keeps - or has stopped - reading.
+func (c *vrtConn) peerHalfClose() {
+	vrtTouch()
+	c.mu.Lock()
+	c.halfClosed = true
 	c.cond.Broadcast()
 	c.mu.Unlock()
 }
